@@ -288,7 +288,29 @@ func visitInstr(fr *frame, instr ssa.Instruction) continuation {
 	case *ssa.Go:
 		panic(unsupported{"go statement"})
 	case *ssa.Select:
-		panic(unsupported{"select statement"})
+		// Non-blocking select whose cases are all sends on unbuffered channels: a case is taken
+		// iff a receiver happens to be waiting at that moment, which depends on the schedule -
+		// every outcome (one of the sends, or default) is explored. Anything else is unsupported.
+		if instr.Blocking {
+			panic(unsupported{"blocking select statement"})
+		}
+		for _, st := range instr.States {
+			if st.Dir != types.SendOnly {
+				panic(unsupported{"select with a receive case"})
+			}
+		}
+		c := in.choose(len(instr.States)+1, "select")
+		res := tuple{in.intConst(-1), in.tb.False}
+		if c < len(instr.States) {
+			st := instr.States[c]
+			ch, _ := fr.get(st.Chan).(*Chan)
+			if ch == nil {
+				panic(unsupported{"select: send on nil channel"})
+			}
+			in.path.events = append(in.path.events, Event{Chan: ch.id, Val: fr.get(st.Send)})
+			res[0] = in.intConst(int64(c))
+		}
+		fr.env.set(instr, res)
 	case *ssa.MakeChan:
 		if sz := in.toInt(fr.get(instr.Size), "chan size"); sz != 0 {
 			// the schedule reduction used for the channel protocol (one producer, at most one
